@@ -42,9 +42,12 @@ pub fn run_case(id: &str, r: &mut Rng, out: &mut String) {
     let first_day = lists[0].iter().map(|t| jd(t.settlement_date)).min().unwrap_or(ledger::BASE_JD);
     let rows = app::interleave(r, lists);
     let zero = r.chance(8);
-    let n = if zero { Decimal::ZERO } else if r.chance(50) { Decimal::new(r.range(1, 200), 0) } else { Decimal::new(r.range(1, 200000), 3) };
+    // no shares but a cost base (what a fully denied loss leaves behind until the repurchase): the
+    // equivalent row is a cost-base adjustment instead of a purchase
+    let zero_with_cost = !zero && r.chance(6);
+    let n = if zero || zero_with_cost { Decimal::ZERO } else if r.chance(50) { Decimal::new(r.range(1, 200), 0) } else { Decimal::new(r.range(1, 200000), 3) };
     let price = if r.chance(15) { Decimal::ZERO } else { Decimal::new(r.range(1, 500000), 4) };
-    let c = if zero { Decimal::ZERO } else { n * price };
+    let c = if zero { Decimal::ZERO } else if zero_with_cost { Decimal::new(r.range(1, 500000), 2) } else { n * price };
     // an opening position of an unrelated security must not matter
     let mut inits = vec![("S0".to_string(), n, c)];
     if r.chance(30) {
@@ -57,7 +60,14 @@ pub fn run_case(id: &str, r: &mut Rng, out: &mut String) {
     let uni = app::universe(&case_a);
     let res_a = app::run_app(&rows, &[], &inits);
     let mut rows_b = Vec::new();
-    if !zero {
+    if zero_with_cost {
+        let mut t = opening_buy("S0", Decimal::ONE, Decimal::ONE, first_day - 31 - r.range(0, 400) as i32);
+        t.action_specifics = acb::portfolio::TxActionSpecifics::Sfla(acb::portfolio::SflaTxSpecifics {
+            shares_affected: acb::util::decimal::PosDecimal::try_from(Decimal::ONE).unwrap(),
+            amount_per_share: acb::util::decimal::PosDecimal::try_from(c).unwrap(),
+        });
+        rows_b.push(t);
+    } else if !zero {
         rows_b.push(opening_buy("S0", n, price, first_day - 31 - r.range(0, 400) as i32));
     }
     rows_b.extend(rows.iter().cloned());
